@@ -279,6 +279,31 @@ for trial in range(%d):
             if got.shape != (nne, nte) or not np.allclose(got, want, atol=2e-5): bad.append(("adf11", trial, z)); break
     except Exception as e:
         bad.append(("adf11-error", trial, repr(e)[:80]))
+    # metastable-resolved ADF11: a line with the metastable counts after the header, several IPRT/IGRD blocks carrying the same Z1
+    labels = []
+    for z in range(1, nz + 1):
+        labels += [z] * rnd.randint(1, 3)
+    rtabs = [[[rnd.uniform(-20, -5) for _ in range(nne)] for _ in range(nte)] for _ in labels]
+    txt = "%%5d%%5d%%5d%%5d%%5d     /NEON               /GCR PROJECT\\n" %% (10, nne, nte, 1, nz)
+    txt += "-" * 80 + "\\n" + "".join("%%5d" %% labels.count(z) for z in range(1, nz + 1)) + "\\n" + "-" * 80 + "\\n" + fmt8(ne) + fmt8(te)
+    for b, z in enumerate(labels):
+        txt += "-" * 20 + "/ IPRT= %%d  / IGRD= %%d  /--------/ Z1= %%d   / DATE= 01/01/00\\n" %% (labels[:b + 1].count(z), 1, z)
+        txt += fmt8([v for row in rtabs[b] for v in row])
+    txt += "C" + "-" * 79 + "\\nC\\n"
+    p = os.path.join(d, "r%%d.dat" %% trial)
+    open(p, "w").write(txt)
+    try:
+        r = parse_adf11(neon, p)[neon]
+        cases += 1
+        if sorted(r.keys()) != sorted(set(labels)):
+            bad.append(("adf11-resolved-charges", trial, sorted(r.keys()), sorted(set(labels))))
+        else:
+            for z in set(labels):
+                last = max(b for b, zz in enumerate(labels) if zz == z)
+                got = np.array(r[z]["rates"]); want = np.round(np.array(rtabs[last]), 5).T
+                if got.shape != (nne, nte) or not np.allclose(got, want, atol=2e-5): bad.append(("adf11-resolved-table", trial, z)); break
+    except Exception as e:
+        bad.append(("adf11-resolved-error", trial, repr(e)[:80]))
     # ADF21-like block through parse_adas2x_rate
     neb, ndt, ntt = rnd.randint(1, 20), rnd.randint(1, 12), rnd.randint(1, 19)
     eb = [rnd.uniform(1e3, 1e5) for _ in range(neb)]; dt = [rnd.uniform(1e11, 1e14) for _ in range(ndt)]; tt = [rnd.uniform(1, 1e4) for _ in range(ntt)]
